@@ -21,7 +21,9 @@ and and_eq bitand bitor compl not not_eq or or_eq xor xor_eq""".split()
 RESERVED_NAMES = ["a__b", "__x", "x__", "_Abc", "_X"]
 NOT_RESERVED = ["a_b", "_abc", "x_", "_1a", "A_"]
 NOT_KEYWORDS = ["class_", "Class", "integer", "whiles", "name_space", "doubles", "Char", "xor_equal", "register_", "this_"]
-BAD_NAMES = ["1abc", "a-b", "a b", "a.b", "", "ü", "x+"]
+BAD_NAMES = ["1abc", "a-b", "a b", "a.b", "", "ü", "x+", "-ab", ".ab", "@ab", " ab", "ab-", "$a"]
+# every printable ASCII character that is not allowed in a name, at the first, a middle and the last position
+BAD_CHARS = [chr(c) for c in range(0x20, 0x7F) if not (chr(c).isalnum() or chr(c) == "_")]
 
 
 def levels_of(schema):
@@ -404,23 +406,27 @@ def keyword_sweep(schema):
         e.values.append(S.EnumValue(n, v))
     set_i = next((i for i, e in enumerate(all_sets(schema)) if e.choices), None)
     comp_i = next((i for i, (c, p) in enumerate(composites_of(schema)) if c.elements and c.name.lower() not in hdr_names), None)
+    bad = [c + "ab" for c in BAD_CHARS] + ["a" + c + "b" for c in BAD_CHARS] + ["ab" + c for c in BAD_CHARS] + \
+          ["%dab" % d for d in range(10)] + ["\u00e9ab", "a\u00e9b", "ab\u00e9", "\u0430b"]
     for names, rule, reject in ((ALL_KEYWORDS, "keyword-name", True), (RESERVED_NAMES, "reserved-identifier-only-warned", False),
-                                (NOT_RESERVED, "keyword-like-name", False)):
+                                (NOT_RESERVED, "keyword-like-name", False), (bad, "invalid-name", True),
+                                (["a%db" % d for d in range(10)] + ["ab%d" % d for d in range(10)] + ["_", "_9"], "valid-name", False)):
         for n in names:
             tag = "sweep:" + n
             if lv_field:
                 add(rule, "field/" + tag, reject, lambda s, n=n, i=lv_field[0]: setattr(levels_of(s)[i][2].fields[0], "name", n))
-            if lv_group:
+            few = rule in ("invalid-name", "valid-name")      # character sweeps: four positions are enough
+            if lv_group and not few:
                 add(rule, "group/" + tag, reject, lambda s, n=n, i=lv_group[0]: setattr(levels_of(s)[i][2].groups[0], "name", n))
-            if lv_data:
+            if lv_data and not few:
                 add(rule, "data/" + tag, reject, lambda s, n=n, i=lv_data[0]: setattr(levels_of(s)[i][2].data[0], "name", n))
             if pub is not None:
                 add(rule, "public-type/" + tag, reject, lambda s, n=n, i=pub: rename_type(s, s.types[i], n))
             if enum_i is not None:
                 add(rule, "validValue/" + tag, reject, lambda s, n=n, i=enum_i: add_value(s, i, n))
-            if set_i is not None:
+            if set_i is not None and not few:
                 add(rule, "choice/" + tag, reject, lambda s, n=n, i=set_i: setattr(all_sets(s)[i].choices[0], "name", n))
-            if comp_i is not None:
+            if comp_i is not None and not few:
                 add(rule, "element/" + tag, reject, lambda s, n=n, i=comp_i: setattr(composites_of(s)[i][0].elements[0], "name", n))
             add(rule, "message/" + tag, reject, lambda s, n=n: setattr(s.messages[0], "name", n))
     return edits
